@@ -116,6 +116,20 @@ def install(I):
         if old: I.models['_ZdlPv'](I, old)
         I.store(vec, P8, buf); I.store(vec + 8, P8, buf + 8 * n); I.store(vec + 16, P8, buf + 8 * n)
     I.overrides['@_ZNSt6vectorIN6osmium8LocationESaIS1_EE14_M_fill_assignEmRKS1_'] = vec_loc_fill_assign
+    # libstdc++ out-of-line container helpers
+    from irparse import IntTy as _IT, PtrTy as _PT
+    _P = _PT(_IT(8))
+    def list_hook(I, node, pos):
+        prev = I.load(pos + 8, _P)
+        I.store(node, _P, pos); I.store(node + 8, _P, prev); I.store(prev, _P, node); I.store(pos + 8, _P, node)
+    def list_unhook(I, node):
+        nxt = I.load(node, _P); prev = I.load(node + 8, _P)
+        I.store(prev, _P, nxt); I.store(nxt + 8, _P, prev)
+    M['_ZNSt8__detail15_List_node_base7_M_hookEPS0_'] = list_hook; M['_ZNSt8__detail15_List_node_base9_M_unhookEv'] = list_unhook
+    # unordered_map rehash policy: bucket counts are taken as requested, never rehash (a valid, if slow, hash table)
+    M['_ZNKSt8__detail20_Prime_rehash_policy11_M_next_bktEm'] = lambda I, this, n: (n if not isinstance(n, Sym) else I.concretize(n, 'bucket count')) or 1
+    def need_rehash(I, this, nb, ne, ni): return [0, 0]
+    M['_ZNKSt8__detail20_Prime_rehash_policy14_M_need_rehashEmmm'] = need_rehash
     # osmium::not_found(id): the constructor only formats the id into the message
     I.overrides['@_ZN6osmium9not_foundC2Em'] = lambda I, *a: None
     # std::to_string(integer): only used to build exception messages -> empty string (formatting is never the subject)
@@ -168,6 +182,12 @@ def install_more(I):
     def append(I_, s, d, n):
         return replace(I_, s, s_len(s), 0, d, n)
     M[S + '6appendEPKcm'] = append
+    def replace_aux(I_, s, pos, n1, n2, c):
+        n2 = I.concretize(n2, 'n2')
+        t = I.new_obj(max(n2, 1), 'tmpfill', 'heap')
+        if n2: I.memset(t, c if not isinstance(c, Sym) else I.trunc(c, c.n, 8), n2)
+        r = replace(I_, s, pos, n1, t, n2); I.objs[t >> OBJ_SHIFT].alive = False; return r
+    M[S + '14_M_replace_auxEmmmc'] = replace_aux
     M[S + '9_M_appendEPKcm'] = append
     def pluseq_cstr(I_, s, d): return append(I_, s, d, M['strlen'](I, d))
     M[S + 'pLEPKc'] = pluseq_cstr
